@@ -429,6 +429,7 @@ def _check_object(out, case):
     # clauses are judged on the bytes the specification prescribes for the object.
     out.label("pack-broken:continued-with-reference-bytes")
     b = exp
+    eq_exempt = True        # an object that cannot be encoded has no encoding to be equal modulo
   if packed_ok and len_ok and ln != len(b):
     out.fail("len", "len(%s) is %d but pack() returned %d octets" % (kind, ln, len(b)), cls=kind)
   if packed_ok and R.is_message(kind):
